@@ -15,7 +15,7 @@ import numpy as np
 
 from . import lsq
 
-FUNCS = ["dreye.api.optimize.lsq_linear." + n for n in ("lsq_linear", "lsq_linear_excitation", "lsq_linear_minimize", "_prepare_parameters", "_prepare_variables", "_solve_problem")] + [
+FUNCS = ["dreye.api.optimize.lsq_linear." + n for n in ("lsq_linear", "lsq_linear_excitation", "lsq_linear_minimize", "lsq_linear_underdetermined", "_get_underdetermined_objective", "_prepare_parameters", "_prepare_variables", "_solve_problem")] + [
     "dreye.api.optimize.utils.prepare_parameters_for_linear", "dreye.api.optimize.utils.get_batch_size",
     "dreye.api.optimize.parallel.batched_iteration", "dreye.api.optimize.parallel.diagonal_stack", "dreye.api.optimize.parallel.concat",
     "dreye.api.optimize.parallel.ravel_iarrays", "dreye.api.optimize.parallel.ravel_last_iarrays", "dreye.api.optimize.parallel.batch_arrays",
@@ -72,6 +72,21 @@ def row_obj(vc, d, proc, r, x):
         Eps = d["Eps"]
         ns = d["A"].shape[1]
         return sum(Eps[j, k] * x[k] * x[k] for j in range(nf) for k in range(ns))
+    if proc == "under":
+        ns = d["A"].shape[1]
+        opt = d["opt_kind"]
+        tot = sum(x[k] for k in range(ns))
+        if opt == "l2":
+            return sum(x[k] * x[k] for k in range(ns))  # smallest Euclidean norm <=> smallest squared norm
+        if opt in ("min", "max"):
+            return tot  # 'max' is compared with >= (see better)
+        if opt == "var":
+            mean = tot / ns
+            return sum((x[k] - mean) * (x[k] - mean) for k in range(ns))
+        if opt == "number":
+            return (tot - d["opt_value"]) * (tot - d["opt_value"])
+        if opt == "vector":
+            return sum((x[k] - d["opt_value"][k]) * (x[k] - d["opt_value"][k]) for k in range(ns))
     raise ValueError(proc)
 
 
@@ -81,14 +96,23 @@ def row_feasible(vc, d, proc, r, x):
     t = lsq.T(d, x)
     if proc == "poisson":
         conds += [vc.gt(t[j], 0) for j in range(nf)]
+    if proc == "under":
+        ss = sum((d["W"][r][j] * (t[j] - d["B"][r, j])) * (d["W"][r][j] * (t[j] - d["B"][r, j])) for j in range(nf))
+        conds += [vc.le(ss, d["l2_eps"] * d["l2_eps"], scale=1.0)]
     if proc == "minimize":
         delta = d["l2_eps"] + d["norm"][r]
         ss = sum((d["W"][r][j] * (t[j] - d["B"][r, j])) * (d["W"][r][j] * (t[j] - d["B"][r, j])) for j in range(nf))
         conds += [vc.ge(delta, 0), vc.le(ss, delta * delta, scale=1.0)]
+        if d.get("L1") is not None:
+            ns = d["A"].shape[1]
+            tot = sum((x[k] if d.get("lb_nonneg", True) else abs(x[k])) for k in range(ns))
+            conds += [vc.le(tot, d["L1"] + d["l1_eps"]), vc.ge(tot, d["L1"] - d["l1_eps"])]
     return vc.all_(conds)
 
 
-def better(vc, proc, a, b):
+def better(vc, proc, a, b, d=None):
+    if proc == "under" and d is not None and d.get("opt_kind") == "max":
+        return vc.ge(a, b)
     return vc.le(a, b)
 
 
@@ -126,6 +150,25 @@ def fit_contract(vc, cfg, level="full"):
         call = lambda: L.lsq_linear(A, B, batch_size=bs, model="poisson", return_pred=True, **kw)
     elif proc == "excitation":
         call = lambda: L.lsq_linear_excitation(A, B, batch_size=bs, return_pred=True, **kw)
+    elif proc == "under":
+        l2_eps = vc.real("l2_eps")
+        vc.assume(vc.gt(l2_eps, 0))
+        d["l2_eps"] = l2_eps
+        kind = cfg["opt"]
+        d["opt_kind"] = kind
+        if kind == "number":
+            d["opt_value"] = vc.real("optv")
+            opt_arg = d["opt_value"]
+        elif kind == "vector":
+            d["opt_value"] = vc.array("optv", (ns,))
+            opt_arg = d["opt_value"]
+        else:
+            opt_arg = kind
+        xf = vc.array("xf", (m, ns))
+        d["xf"] = xf
+        for r in range(m):  # the target is in gamut (within l2_eps): ghost witness
+            vc.assume(row_feasible(vc, d, proc, r, [xf[r, k] for k in range(ns)]))
+        call = lambda: L.lsq_linear_underdetermined(A, B, batch_size=bs, l2_eps=l2_eps, underdetermined_opt=opt_arg, return_pred=True, **kw)
     else:
         # explicit attainable-error norm (stage 1 is lsq_linear, verified under its own contract): the stage-2
         # row problems are feasible by precondition (ghost witness xf_r)
@@ -136,11 +179,18 @@ def fit_contract(vc, cfg, level="full"):
             vc.assume(vc.ge(norm[r], 0))
         d["norm"], d["l2_eps"] = norm, l2_eps
         d["Eps"] = _eps_spec(vc, cfg, d)
+        extra = {}
+        if cfg.get("L1"):
+            d["L1"], d["l1_eps"] = vc.real("L1"), vc.real("l1_eps")
+            vc.assume(vc.gt(d["l1_eps"], 0))
+            vc.assume(vc.ge(d["L1"], 0))
+            d["lb_nonneg"] = cfg.get("lb", "none") in ("none", "pos")
+            extra = dict(L1=d["L1"], l1_eps=d["l1_eps"])
         xf = vc.array("xf", (m, ns))
         d["xf"] = xf
         for r in range(m):
             vc.assume(row_feasible(vc, d, proc, r, [xf[r, k] for k in range(ns)]))
-        call = lambda: L.lsq_linear_minimize(A, B, Epsilon=d.get("Eps_arg"), norm=norm, l2_eps=l2_eps, batch_size=bs, return_pred=True, **kw)
+        call = lambda: L.lsq_linear_minimize(A, B, Epsilon=d.get("Eps_arg"), norm=norm, l2_eps=l2_eps, batch_size=bs, return_pred=True, **extra, **kw)
     o = vc.call(call)
     facts = list(vc.facts)
     if vc.symbolic:
@@ -204,7 +254,7 @@ def _eps_spec(vc, cfg, d):
 
 def _witness_row(vc, cfg, d, r):
     ns = d["A"].shape[1]
-    if cfg["proc"] == "minimize":
+    if cfg["proc"] in ("minimize", "under"):
         return [d["xf"][r, k] for k in range(ns)]
     if cfg["proc"] == "poisson":
         # strictly inside the box towards ub (A > 0, so T > 0)
@@ -237,24 +287,30 @@ def _batch_size(cfg):
 
 def _optimality_sym(vc, cfg, d, X, rows, facts, level):
     proc, nf, ns, m = cfg["proc"], cfg["nf"], cfg["ns"], cfg["m"]
-    # effective batch size = what the code actually stacks into one problem (a procedure may legitimately use
-    # fewer samples per problem than requested: the batch size is a performance setting only)
-    bs_req = _batch_size(cfg)
-    sizes = {f.problem.variables()[0].size // ns for f in facts if f.problem.variables()}
-    bs = sizes.pop() if len(sizes) == 1 else bs_req
-    nb = -(-m // bs)
-    vc.prove("solves-partition-the-rows", len(facts) == nb and 1 <= bs <= max(bs_req, 1), detail=f"{len(facts)} solves of {bs} samples for {m} rows (requested batch size {bs_req})")
-    if len(facts) != nb:
-        return
-    for r in range(m):
-        f = facts[r // bs]
-        v = f.problem.variables()[0]
-        blk = r % bs
-        xs = f.xstar[v]
-        ok_size = v.size == bs * ns
-        vc.prove(f"scatter[{r}]", ok_size and all(X[r, k] is xs[blk * ns + k] for k in range(ns)), detail=f"variable size {v.size}")
-        if not ok_size:
+    # which solve (and which block of its stacked variable) produced row r is found by identity of the returned
+    # terms, not assumed from the batching scheme: any scheme that hands back solver outputs is acceptable
+    # (the batch size is a performance setting only)
+    where = {}
+    for fi, f in enumerate(facts):
+        if getattr(f, "infeasible", False) or not f.problem.variables():
             continue
+        v = f.problem.variables()[0]
+        xs = f.xstar[v]
+        if v.size % ns:
+            continue
+        for blk in range(v.size // ns):
+            for r in range(m):
+                if r not in where and all(X[r, k] is xs[blk * ns + k] for k in range(ns)):
+                    where[r] = (fi, blk)
+    vc.prove("every-row-is-a-solver-output", len(where) == m, detail=f"rows {sorted(set(range(m)) - set(where))} are not blocks of any solve ({len(facts)} solves)")
+    for r in range(m):
+        if r not in where:
+            continue
+        fi, blk = where[r]
+        f = facts[fi]
+        v = f.problem.variables()[0]
+        xs = f.xstar[v]
+        bs = v.size // ns
         xr = rows[r]
         # competitor z: Skolem constant of the negated row-optimality claim
         z = vc.array(f"z{r}", (ns,))
@@ -267,13 +323,13 @@ def _optimality_sym(vc, cfg, d, X, rows, facts, level):
         vc.prove(f"row-feasible[{r}]: X_r satisfies its row constraints", row_feasible(vc, d, proc, r, xr))
         vc.prove(f"formulation-feasible[{r}]: rowfeas(z) => code-feasible(X*[r:=z])", vc.implies(zfeas, feas))
         if proc in ("excitation", "poisson"):
-            _formulation_cuts(vc, cfg, d, f, v, xs, y, r, bs, zfeas)
+            _formulation_cuts(vc, cfg, d, f, v, xs, y, r, bs, zfeas, where=where, fi=fi)
         vc.prove(f"row-optimal[{r}]: rowfeas(z) => obj_r(X_r) <= obj_r(z)",
-                 vc.implies(zfeas, better(vc, proc, row_obj(vc, d, proc, r, xr), row_obj(vc, d, proc, r, zl))))
+                 vc.implies(zfeas, better(vc, proc, row_obj(vc, d, proc, r, xr), row_obj(vc, d, proc, r, zl), d)))
         if bs == 1:
             # locality: the data of solve r mention row r of B / W only
             allowed = [(d["A"], ()), (d["B"], (r,))]
-            extra = ("lb", "ub", "K", "baseline", "l2_eps", "Eps") + (("W",) if cfg.get("W") == "receptor" else ())
+            extra = ("lb", "ub", "K", "baseline", "l2_eps", "Eps", "L1", "l1_eps") + (("W",) if cfg.get("W") == "receptor" else ())
             vals = [val for val in f.params.values()]
             if cfg.get("W") == "sample":
                 allowed.append((d["W_arg"], (r,)))
@@ -282,36 +338,58 @@ def _optimality_sym(vc, cfg, d, X, rows, facts, level):
             vc.prove(f"solve[{r}]-reads-only-row-{r}", all(vc.depends_only(val, allowed, extra=extra) for val in vals))
         if level == "full" and proc == "gaussian":
             _in_gamut_zero_error(vc, cfg, d, f, v, xs, blk, r, xr)
+        if level == "full" and proc in ("poisson", "excitation"):
+            _in_gamut_agreement(vc, cfg, d, f, v, xs, blk, r, xr, bs, where, fi)
     if level == "full":
         f = facts[0]
         v = f.problem.variables()[0]
+        bs = v.size // ns
         yf = vc.array("yf", (v.size,))
-        rws = [r for r in range(m) if r // bs == 0]
+        rws = sorted(r for r, (f_, b_) in where.items() if f_ == 0)
         code_obj = f.objective({v: yf})
-        if proc in ("gaussian", "poisson", "minimize"):
-            spec_obj = sum(row_obj(vc, d, proc, r, [yf[(r % bs) * ns + k] for k in range(ns)]) for r in rws)
+        blk0 = {r: where[r][1] for r in rws}
+        if proc == "under":
+            spec_obj = None
+        elif proc in ("gaussian", "poisson", "minimize"):
+            spec_obj = sum(row_obj(vc, d, proc, r, [yf[blk0[r] * ns + k] for k in range(ns)]) for r in rws)
         else:
-            spec_obj = vc.max_(*[row_obj(vc, d, proc, r, [yf[(r % bs) * ns + k] for k in range(ns)]) for r in rws])
-        hyp = vc.all_(row_feasible(vc, d, proc, r, [yf[(r % bs) * ns + k] for k in range(ns)]) for r in rws)
-        vc.prove("formulation-objective: code objective == spec objective on the feasible set", vc.implies(hyp, vc.eq(code_obj, spec_obj)))
+            spec_obj = vc.max_(*[row_obj(vc, d, proc, r, [yf[blk0[r] * ns + k] for k in range(ns)]) for r in rws])
+        hyp = vc.all_(row_feasible(vc, d, proc, r, [yf[blk0[r] * ns + k] for k in range(ns)]) for r in rws)
+        if spec_obj is not None:
+            vc.prove("formulation-objective: code objective == spec objective on the feasible set", vc.implies(hyp, vc.eq(code_obj, spec_obj)))
+        vc.prove("formulation-feasible-set: spec-feasible <=> code-feasible", vc.and_(vc.implies(hyp, f.feasible({v: yf})), vc.implies(f.feasible({v: yf}), hyp)))
         vc.canary("objective-constant", vc.eq(code_obj, 0))
 
 
-def _batch_spec_obj(vc, cfg, d, fi, bs, point):
+def _batch_spec_obj(vc, cfg, d, fi, bs, point, where=None):
     """spec objective of the whole batch fi at the stacked point: sum (or max) of the row objectives of its real rows"""
     proc, ns, m = cfg["proc"], cfg["ns"], cfg["m"]
-    rws = [r for r in range(fi * bs, min((fi + 1) * bs, m))]
-    vals = [row_obj(vc, d, proc, r, [point[(r % bs) * ns + k] for k in range(ns)]) for r in rws]
+    if where is not None:
+        rws = sorted(r for r, (f_, b_) in where.items() if f_ == fi)
+        blk_of = {r: where[r][1] for r in rws}
+    else:
+        rws = [r for r in range(fi * bs, min((fi + 1) * bs, m))]
+        blk_of = {r: r % bs for r in rws}
+    vals = [row_obj(vc, d, proc, r, [point[blk_of[r] * ns + k] for k in range(ns)]) for r in rws]
     if proc == "excitation":
         return vc.max_(*(vals + ([0] if len(rws) < bs else [])))  # padded samples contribute |0-0| = 0
-    return sum(vals)
+    tot = sum(vals)
+    if proc == "minimize":
+        # zero-padded blocks still carry variables: their variance term is part of the stated objective
+        nf = d["A"].shape[0]
+        used = set(blk_of.values())
+        for b_ in range(bs):
+            if b_ not in used:
+                tot = tot + sum(d["Eps"][j, k] * point[b_ * ns + k] * point[b_ * ns + k] for j in range(nf) for k in range(ns))
+    return tot
 
 
-def _formulation_cuts(vc, cfg, d, f, v, xs, y, r, bs, zfeas):
+def _formulation_cuts(vc, cfg, d, f, v, xs, y, r, bs, zfeas, tag="y", where=None, fi=None):
     """cuts: the code objective at x* and at the ghost point equals the spec objective of the batch"""
-    fi = r // bs
-    vc.lemma(f"cut:code-objective(x*)==spec[{r}]", vc.eq(f.objective({v: xs}), _batch_spec_obj(vc, cfg, d, fi, bs, xs)))
-    vc.lemma(f"cut:code-objective(y)==spec[{r}]", vc.implies(zfeas, vc.eq(f.objective({v: y}), _batch_spec_obj(vc, cfg, d, fi, bs, y))))
+    fi = r // bs if fi is None else fi
+    if tag == "y":
+        vc.lemma(f"cut:code-objective(x*)==spec[{r}]", vc.eq(f.objective({v: xs}), _batch_spec_obj(vc, cfg, d, fi, bs, xs, where)))
+    vc.lemma(f"cut:code-objective({tag})==spec[{r}]", vc.implies(zfeas, vc.eq(f.objective({v: y}), _batch_spec_obj(vc, cfg, d, fi, bs, y, where))))
 
 
 def _in_gamut_zero_error(vc, cfg, d, f, v, xs, blk, r, xr):
@@ -329,6 +407,40 @@ def _in_gamut_zero_error(vc, cfg, d, f, v, xs, blk, r, xr):
     vc.lemma(f"lemma:T(x0)==B=>wls(x0)==0[{r}]", vc.implies(hit, vc.eq(lsq.wls(d, r, x0l), 0)))
     vc.lemma(f"lemma:wls(X_r)>=0[{r}]", vc.ge(lsq.wls(d, r, xr), 0))
     vc.prove(f"in-gamut=>zero-error[{r}]", vc.implies(vc.and_(in0, hit), vc.eq(lsq.wls(d, r, xr), 0)))
+
+
+def _in_gamut_agreement(vc, cfg, d, f, v, xs, blk, r, xr, bs, where=None, fi=None):
+    """if some x0 in the box reproduces the target (T(x0) == B_r), the returned row reproduces it too"""
+    proc, nf, ns = cfg["proc"], cfg["nf"], cfg["ns"]
+    x0 = vc.array(f"x0{r}", (ns,))
+    x0l = [x0[k] for k in range(ns)]
+    y0 = np.array(xs, dtype=object)
+    for k in range(ns):
+        y0[blk * ns + k] = x0[k]
+    f.instantiate({v: y0})
+    t0, tx = lsq.T(d, x0l), lsq.T(d, xr)
+    in0 = lsq.in_box(vc, d, x0l)
+    hit = vc.all_(vc.eq(t0[j], d["B"][r, j]) for j in range(nf))
+    feas0 = row_feasible(vc, d, proc, r, x0l)
+    _formulation_cuts(vc, cfg, d, f, v, xs, y0, r, bs, feas0, tag="x0", where=where, fi=fi)
+    ox, o0 = row_obj(vc, d, proc, r, xr), row_obj(vc, d, proc, r, x0l)
+    vc.lemma(f"lemma:rowfeas(x0)=>obj(X_r)<=obj(x0)[{r}]", vc.implies(feas0, vc.le(ox, o0)))
+    B = d["B"]
+    if proc == "poisson":
+        floor = sum(d["W"][r][j] * (B[r, j] - B[r, j] * vc.log(B[r, j])) for j in range(nf))
+        vc.lemma(f"lemma:T(x0)==B=>obj(x0)==floor[{r}]", vc.implies(hit, vc.eq(o0, floor)))
+        for j in range(nf):
+            vc.gibbs(tx[j], B[r, j])
+        vc.lemma(f"lemma:hit&box=>rowfeas(x0)[{r}]", vc.implies(vc.and_(in0, hit), feas0))
+    else:
+        vc.lemma(f"lemma:T(x0)==B=>obj(x0)==0[{r}]", vc.implies(hit, vc.eq(o0, 0)))
+        vc.lemma(f"lemma:hit&box=>rowfeas(x0)[{r}]", vc.implies(vc.and_(in0, hit), feas0))
+        for j in range(nf):
+            term = abs(B[r, j] - tx[j]) / ((1 + B[r, j]) * (1 + tx[j]))
+            vc.lemma(f"lemma:term>=0,=0 iff equal[{r},{j}]", vc.and_(vc.ge(term, 0), vc.implies(vc.eq(term, 0), vc.eq(tx[j], B[r, j]))))
+            vc.lemma(f"lemma:obj>=term[{r},{j}]", vc.ge(ox, term))
+    for j in range(nf):
+        vc.prove(f"in-gamut=>reproduced[{r},{j}]", vc.implies(vc.and_(in0, hit), vc.eq(tx[j], B[r, j])))
 
 
 def _optimality_native(vc, cfg, d, rows):
@@ -379,10 +491,25 @@ def _optimality_native(vc, cfg, d, rows):
             class _P:
                 value = hi
             prob = _P
+        elif proc == "under":
+            kind = d["opt_kind"]
+            fit = [cp.norm2(cp.multiply(w, q - Bm[r])) <= float(d["l2_eps"])]
+            obj = {"l2": lambda: cp.Minimize(cp.sum_squares(x)), "min": lambda: cp.Minimize(cp.sum(x)), "max": lambda: cp.Maximize(cp.sum(x)),
+                   "var": lambda: cp.Minimize(cp.sum_squares(x - cp.sum(x) / ns)), "number": lambda: cp.Minimize(cp.square(cp.sum(x) - float(d["opt_value"]))),
+                   "vector": lambda: cp.Minimize(cp.sum_squares(x - np.asarray(d["opt_value"], float)))}[kind]()
+            prob = cp.Problem(obj, cons + fit)
+            prob.solve(solver=cp.CLARABEL)
+            if kind == "max":
+                vc.prove(f"row-optimal[{r}] (native oracle, bounded)", mine >= prob.value - 2e-2 * max(1.0, abs(prob.value)), detail=f"code {mine!r} oracle {prob.value!r}")
+                continue
         else:
             Eps = np.asarray(d["Eps"], float)
             delta = float(d["l2_eps"]) + float(d["norm"][r])
-            prob = cp.Problem(cp.Minimize(cp.sum(Eps @ x ** 2)), cons + [cp.norm2(cp.multiply(w, q - Bm[r])) <= delta])
+            l1c = []
+            if d.get("L1") is not None:
+                tot = cp.sum(x) if d.get("lb_nonneg", True) else cp.norm(x, 1)
+                l1c = [tot <= float(d["L1"]) + float(d["l1_eps"])] + ([cp.sum(x) >= float(d["L1"]) - float(d["l1_eps"])] if d.get("lb_nonneg", True) else [])
+            prob = cp.Problem(cp.Minimize(cp.sum(Eps @ x ** 2)), cons + [cp.norm2(cp.multiply(w, q - Bm[r])) <= delta] + l1c)
             prob.solve(solver=cp.CLARABEL)
         tol = 2e-2 * max(1.0, abs(prob.value))
         vc.prove(f"row-optimal[{r}] (native oracle, bounded)", mine <= prob.value + tol, detail=f"code {mine!r} oracle {prob.value!r}")
